@@ -36,6 +36,8 @@ PATH_FUNCS = {
         "MetaType._write_array": {"cls": "shared"}, "MetaType._write_0": {"cls": "shared"}, "MetaType.__len__": {"cls": "shared"},
         "BaseArray._read": {"cls": "shared"}, "BaseArray._write": {"cls": "shared"}, "Array._read": {"cls": "shared"}, "_is_eof": {},
         "BaseArray.__default__": {"cls": "shared"}, "MetaType.__default__": {"cls": "shared"},
+        # one descriptor object per overloaded method (dumps/write) serves every type and every thread
+        "_overload.__get__": {"self": "shared"}, "_overload.__call__?": {"self": "shared"}, "_overload.__init__": {"self": "local"},
     },
     "dissect/cstruct/types/structure.py": {
         "StructureMetaType._read": {"cls": "shared"}, "StructureMetaType._read_0": {"cls": "shared"}, "StructureMetaType._write": {"cls": "shared"},
@@ -126,7 +128,7 @@ def stores_of(fn):
 
 
 class FrameCase(Case):
-    functions = [f"{p}:{q}" for p, d in PATH_FUNCS.items() for q in d]
+    functions = [f"{p}:{q.rstrip(chr(63))}" for p, d in PATH_FUNCS.items() for q in d]
 
     def __init__(self, path):
         self.path = path
@@ -135,7 +137,11 @@ class FrameCase(Case):
     def body(self, ctx):
         fns = functions_of(self.path)
         for q, roles in PATH_FUNCS[self.path].items():
+            optional = q.endswith("?")
+            q = q.rstrip("?")
             fn = fns.get(q)
+            if fn is None and optional:
+                continue  # a method that need not exist (checked when present)
             if fn is None:
                 # a function of the parse path disappeared/renamed: its frame is not established
                 ctx.ex.obligations.append(__import__("pyvc.ctx").ctx.Obligation(f"{self.name}/{q}/assigns-nothing-shared", "undecided", info="function not found in the working tree"))
